@@ -38,6 +38,7 @@ type report struct {
 	YieldSites     int            `json:"yield_sites"`
 	YieldPerPkg    map[string]int `json:"yield_sites_per_package"`
 	LockRewrites   int            `json:"lock_rewrites"`
+	PoolRewrites   int            `json:"sync_pool_rewrites"`
 	MapSites       []string       `json:"map_range_sites"`
 	Unseamed       []string       `json:"unseamed_map_ranges"`
 	FilesRewritten []string       `json:"files_rewritten"`
@@ -55,7 +56,7 @@ func main() {
 	dir := flag.String("dir", "", "repository copy to instrument in place")
 	rep := flag.String("report", "", "json report path")
 	yieldPkgs := flag.String("yield", ".,quadtree,planar", "packages (relative) to get statement yields; \".\" is the root package orb")
-	mapPkgs := flag.String("maps", "encoding/mvt,geojson,maptile,maptile/tilecover", "packages (relative) to get the map seam")
+	mapPkgs := flag.String("maps", "encoding/mvt,geojson,maptile,maptile/tilecover,quadtree,planar", "packages (relative) to get the map seam")
 	flag.Parse()
 	if *dir == "" {
 		fmt.Fprintln(os.Stderr, "instr: -dir required")
@@ -202,6 +203,34 @@ func main() {
 					changed = true
 					return false
 				}, nil)
+				// sync.Pool seam: p.Get() / p.Put(x) -> verifrt.PoolGet(&p) / verifrt.PoolPut(&p, x)
+				astutil.Apply(f, func(c *astutil.Cursor) bool {
+					call, ok := c.Node().(*ast.CallExpr)
+					if !ok {
+						return true
+					}
+					sel, ok := call.Fun.(*ast.SelectorExpr)
+					if !ok || (sel.Sel.Name != "Get" && sel.Sel.Name != "Put") {
+						return true
+					}
+					isPtr, isPool := syncPool(pkg.TypesInfo, sel.X)
+					if !isPool {
+						return true
+					}
+					var recv ast.Expr = sel.X
+					if !isPtr {
+						recv = &ast.UnaryExpr{Op: token.AND, X: sel.X}
+					}
+					name := "PoolGet"
+					if sel.Sel.Name == "Put" {
+						name = "PoolPut"
+					}
+					c.Replace(&ast.CallExpr{Fun: &ast.SelectorExpr{X: ast.NewIdent("verifrt"), Sel: ast.NewIdent(name)}, Args: append([]ast.Expr{recv}, call.Args...)})
+					r.PoolRewrites++
+					changed = true
+					needImport = true
+					return false
+				}, nil)
 				for _, d := range f.Decls {
 					if fd, ok := d.(*ast.FuncDecl); ok && fd.Body != nil {
 						insertYields(fd.Body, &site)
@@ -274,6 +303,23 @@ func rel(dir, f string) string {
 		return r
 	}
 	return f
+}
+
+// syncPool reports whether e has type sync.Pool or *sync.Pool.
+func syncPool(info *types.Info, e ast.Expr) (isPtr, isPool bool) {
+	tv, ok := info.Types[e]
+	if !ok {
+		return false, false
+	}
+	t := tv.Type
+	if p, ok := t.(*types.Pointer); ok {
+		t, isPtr = p.Elem(), true
+	}
+	n, ok := t.(*types.Named)
+	if !ok || n.Obj().Pkg() == nil {
+		return false, false
+	}
+	return isPtr, n.Obj().Pkg().Path() == "sync" && n.Obj().Name() == "Pool"
 }
 
 func isSyncMutex(info *types.Info, sel *ast.SelectorExpr) bool {
